@@ -37,7 +37,9 @@ CONSTANTS Plans,        \* set of fault plans (see PoolRunMC)
           FixWaitDone,  \* TRUE: runAsync failure calls onWaitDone (repaired); FALSE: as shipped
           FixSuppress,  \* TRUE: onErrAwaited gives up on the POOL ctx (repaired); FALSE: on the run ctx
           FixClose,     \* FALSE: instance does not close its gun (negative control)
-          FixPanic      \* FALSE: a recovered shot panic is returned as nil (negative control)
+          FixPanic,     \* FALSE: a recovered shot panic is returned as nil (negative control)
+          ErrKinds,     \* which VALUE a failing component returns (plan field ek), see Cls below
+          FixIsCtx      \* FALSE: IsCtxError accepts any context-kind cause once ctx is done (negative control)
 
 VARIABLES
   plan,            \* the fault plan of this behaviour (never changes)
@@ -54,6 +56,8 @@ VARIABLES
   wdCount,         \* [pool -> number of onWaitDone calls]
   runCancelled,    \* [pool -> BOOLEAN]  runCancel() called by checkAllInstancesAreFinished
   startCancelled,  \* [pool -> BOOLEAN]  instanceStartCancel()
+  runClosed,       \* [pool -> BOOLEAN]  runCtx.Done() is closed (observable)
+  startClosed,     \* [pool -> BOOLEAN]  instanceStartCtx.Done() is closed (observable)
   prov, provCh,    \* provider goroutine idle|run|done; its 1-buffered result channel empty|<class>
   ammoLeft, qClosed,
   agg, aggCh,
@@ -67,14 +71,14 @@ VARIABLES
   closes,          \* [pool -> [inst -> number of Close calls]]
   resBag,          \* [pool -> set of [id, c]]   instance results sent and not yet received
   aw,              \* the await goroutine [pc |-> idle|loop|check|onerr|done, toWait, started, awaited,
-                   \*                      (+ startcancel, runcancel), provSeen, aggSeen, startSeen, resOpen, pend, after]
+                   \*                      provSeen, aggSeen, startSeen, resOpen, pend, after]
   failed,          \* ghost: [pool -> set of causes: non-context component errors / panics that happened]
   fwd,             \* ghost: [pool -> cause forwarded through awaitErr, or "none"]
   supp             \* ghost: [pool -> set of causes suppressed by onErrAwaited]
 
 engVars  == <<cancelReq, userCancel, engDefer, cancelAtRet, engI, engRet, engCh, waitRet>>
 poolVars == <<poolPc, poolRet, wdCount>>
-ctxVars  == <<runCancelled, startCancelled>>
+ctxVars  == <<runCancelled, startCancelled, runClosed, startClosed>>
 provVars == <<prov, provCh, ammoLeft, qClosed>>
 aggVars  == <<agg, aggCh>>
 stVars   == <<st, startCh>>
@@ -96,11 +100,40 @@ ERet(k, p, c)  == [k |-> k, p |-> p, c |-> c]
 \* step is written before cancel() is called, and another goroutine may read the context in between).
 EngineCtxDone == userCancel \/ engDefer                        \* deferred cancel() of Engine.Run
 PoolDone(p)   == EngineCtxDone \/ poolPc[p] \in {"report", "done"}   \* deferred cancel() of instancePool.Run
-RunDone(p)    == runCancelled[p] \/ PoolDone(p)
-StartDone(p)  == startCancelled[p] \/ RunDone(p)
+\* cancel() closes the context's own Done channel first and its children afterwards, one by one: a reader of the
+\* run / start context can still see it open although the parent (or the cancel decision) is already visible to
+\* others.  CtxProp is that propagation.  (Pool and engine ctx are only ever read as "done", so no lag is modelled.)
+RunDone(p)    == runClosed[p]
+StartDone(p)  == startClosed[p]
 
-\* errutil.IsCtxError(ctx, err): nil, or ctx.Err() of a cancelled ctx
-IsCtx(done, e) == e = "nil" \/ (e = "ctx" /\ done)
+(* ---- error values ------------------------------------------------------ *)
+\* A component result is abstracted to the VALUE of its cause (pkg/errors.Cause), because that is all
+\* errutil.IsCtxError looks at:
+\*   "nil"       no error
+\*   "ctx"       the sentinel context.Canceled.  It is ONE value for all contexts: the run context's own
+\*               error returned late ("runctx") and the Canceled of a component's private context
+\*               ("canceled") cannot be told apart by the engine
+\*   "deadline"  the sentinel context.DeadlineExceeded of a component's OWN deadline.  The engine's contexts
+\*               are only ever cancelled (the caller's ctx has no deadline here), so this is never the
+\*               engine's own cancellation and must be reported, however late it arrives
+\*   anything else ("prov", "agg", "newgun", "bind", "sched", "warmup", "panic", "ooa")  ordinary errors,
+\*               plain or wrapped (a fmt.Errorf("%w") wrapper is its own cause, even around Canceled)
+\* The plan's error kind ek \in ErrKinds decides which value the plan's failing component returns at
+\* position pos:
+ASSUME ErrKinds \subseteq {"plain", "wrapped", "deadline", "canceled", "runctx"}
+Cls(p, pos) == CASE PP(p).ek \in {"plain", "wrapped"} -> pos
+                 [] PP(p).ek = "deadline" -> "deadline"
+                 [] PP(p).ek \in {"canceled", "runctx"} -> "ctx"
+
+\* errutil.IsCtxError(ctx, err): err == nil, or ctx.Err() == Cause(err): identity with the error of THAT
+\* ctx, which is nil while it is open and context.Canceled once it is cancelled.  What counts as a component
+\* failure is therefore: every non-nil result that is not "ctx", and "ctx" when the checked context is still
+\* open at classification time.  A "ctx" result classified after the checked context is done is indistinguishable
+\* from the engine's own cancellation and is legitimately ignored.
+IsCtx(done, e) == \/ e = "nil"
+                  \/ e = "ctx" /\ done
+                  \/ ~FixIsCtx /\ done /\ e = "deadline"      \* negative control only
+NotCtxValue(c) == c \notin {"nil", "ctx"}
 
 (* ---- initial state ----------------------------------------------------- *)
 InitFor(pl) ==
@@ -112,6 +145,8 @@ InitFor(pl) ==
   /\ wdCount = [p \in 1..Len(pl.pools) |-> 0]
   /\ runCancelled = [p \in 1..Len(pl.pools) |-> FALSE]
   /\ startCancelled = [p \in 1..Len(pl.pools) |-> FALSE]
+  /\ runClosed = [p \in 1..Len(pl.pools) |-> FALSE]
+  /\ startClosed = [p \in 1..Len(pl.pools) |-> FALSE]
   /\ prov = [p \in 1..Len(pl.pools) |-> "idle"]
   /\ provCh = [p \in 1..Len(pl.pools) |-> "empty"]
   /\ ammoLeft = [p \in 1..Len(pl.pools) |-> pl.pools[p].ammo]
@@ -204,8 +239,8 @@ PoolFailSync(p, c, callWaitDone) ==
 PoolWarm(p) ==
   /\ poolPc[p] = "init"
   /\ gunCalls' = [gunCalls EXCEPT ![p] = 1]
-  /\ IF PP(p).gunFail = 0 THEN PoolFailSync(p, "newgun", TRUE)
-     ELSE IF PP(p).warm = "fail" THEN PoolFailSync(p, "warmup", TRUE)
+  /\ IF PP(p).gunFail = 0 THEN PoolFailSync(p, Cls(p, "newgun"), TRUE)
+     ELSE IF PP(p).warm = "fail" THEN PoolFailSync(p, Cls(p, "warmup"), TRUE)
      ELSE /\ poolPc' = [poolPc EXCEPT ![p] = "async"]
           /\ UNCHANGED <<poolRet, wdCount, failed>>
   /\ UNCHANGED <<plan, engVars, ctxVars, provVars, aggVars, stVars, schedCalls, instVars, awVars>>
@@ -214,7 +249,7 @@ PoolWarm(p) ==
 PoolAsync(p) ==
   /\ poolPc[p] = "async"
   /\ IF PP(p).shared /\ PP(p).schedFail = 0
-     THEN /\ PoolFailSync(p, "sched", FixWaitDone)
+     THEN /\ PoolFailSync(p, Cls(p, "sched"), FixWaitDone)
           /\ schedCalls' = [schedCalls EXCEPT ![p] = 1]
           /\ UNCHANGED <<prov, agg, st, aw>>
      ELSE /\ poolPc' = [poolPc EXCEPT ![p] = "select"]
@@ -268,16 +303,16 @@ PoolStep(p) == PoolWarm(p) \/ PoolAsync(p) \/ PoolSelectCancel(p) \/ PoolSelectC
 \* which result the provider's Run may return now
 ProvMay(p, c) ==
   \/ c = "nil"  /\ PP(p).provider = "ok"   /\ ammoLeft[p] = 0
-  \/ c = "prov" /\ PP(p).provider = "fail" /\ ammoLeft[p] = 0    \* fails before the first ammo (ammo = 0) / mid-run
+  \/ c = Cls(p, "prov") /\ PP(p).provider = "fail" /\ ammoLeft[p] = 0    \* fails before the first ammo (ammo = 0) / mid-run
   \/ c = "ctx"  /\ PP(p).provider \in {"ok", "fail"} /\ RunDone(p)
-  \/ c = "prov" /\ PP(p).provider = "end"  /\ RunDone(p)         \* fails at the very end: error on cancel
+  \/ c = Cls(p, "prov") /\ PP(p).provider = "end"  /\ RunDone(p)         \* fails at the very end: error on cancel
 
 ProvEnd(p, c) ==
   /\ prov[p] = "run" /\ ProvMay(p, c)
   /\ prov' = [prov EXCEPT ![p] = "done"]
   /\ provCh' = [provCh EXCEPT ![p] = c]
   /\ qClosed' = [qClosed EXCEPT ![p] = TRUE]
-  /\ failed' = [failed EXCEPT ![p] = IF c = "prov" THEN @ \cup {"prov"} ELSE @]
+  /\ failed' = [failed EXCEPT ![p] = IF NotCtxValue(c) THEN @ \cup {c} ELSE @]
   /\ UNCHANGED <<plan, engVars, poolVars, ctxVars, ammoLeft, aggVars, stVars, facVars, instVars, awVars>>
 
 \* a provider that fails at the very end closes its queue when it runs dry but keeps running
@@ -286,21 +321,21 @@ ProvCloseQ(p) ==
   /\ qClosed' = [qClosed EXCEPT ![p] = TRUE]
   /\ UNCHANGED <<plan, engVars, poolVars, ctxVars, prov, provCh, ammoLeft, aggVars, stVars, facVars, instVars, awVars, failed>>
 
-ProvStep(p) == (\E c \in {"nil", "ctx", "prov"} : ProvEnd(p, c)) \/ ProvCloseQ(p)
+ProvStep(p) == (\E c \in {"nil", "ctx", "prov", "deadline"} : ProvEnd(p, c)) \/ ProvCloseQ(p)
 
 AggMay(p, c) ==
-  \/ c = "agg" /\ PP(p).aggregator = "now"                   \* fails at once
+  \/ c = Cls(p, "agg") /\ PP(p).aggregator = "now"                   \* fails at once
   \/ c = "nil" /\ PP(p).aggregator = "ok"   /\ RunDone(p)
-  \/ c = "agg" /\ PP(p).aggregator = "drop" /\ RunDone(p)    \* "N samples were dropped" when cancelled
+  \/ c = Cls(p, "agg") /\ PP(p).aggregator = "drop" /\ RunDone(p)    \* "N samples were dropped" / flush error when cancelled
 
 AggEnd(p, c) ==
   /\ agg[p] = "run" /\ AggMay(p, c)
   /\ agg' = [agg EXCEPT ![p] = "done"]
   /\ aggCh' = [aggCh EXCEPT ![p] = c]
-  /\ failed' = [failed EXCEPT ![p] = IF c = "agg" THEN @ \cup {"agg"} ELSE @]
+  /\ failed' = [failed EXCEPT ![p] = IF NotCtxValue(c) THEN @ \cup {c} ELSE @]
   /\ UNCHANGED <<plan, engVars, poolVars, ctxVars, provVars, stVars, facVars, instVars, awVars>>
 
-AggStep(p) == \E c \in {"nil", "agg"} : AggEnd(p, c)
+AggStep(p) == \E c \in {"nil", "ctx", "agg", "deadline"} : AggEnd(p, c)
 
 (* ======================================================================= *)
 (* startInstances and instance creation                                    *)
@@ -343,8 +378,8 @@ StartFirstCreate(p, o) ==
           /\ ipc' = [ipc EXCEPT ![p][0] = "check"]
           /\ gun' = [gun EXCEPT ![p][0] = "bound"]
           /\ UNCHANGED <<startCh, failed>>
-     ELSE /\ StartSend(p, 0, o)
-          /\ failed' = [failed EXCEPT ![p] = @ \cup {o}]
+     ELSE /\ StartSend(p, 0, Cls(p, o))
+          /\ failed' = [failed EXCEPT ![p] = IF NotCtxValue(Cls(p, o)) THEN @ \cup {Cls(p, o)} ELSE @]
           /\ UNCHANGED <<ipc, gun>>
   /\ UNCHANGED <<plan, engVars, poolVars, ctxVars, provVars, aggVars, itok, ishots, icls, closes, resBag, stok, awVars>>
 
@@ -376,8 +411,8 @@ InstCreate(p, i, o) ==
           /\ gun' = [gun EXCEPT ![p][i] = "bound"]
           /\ UNCHANGED <<resBag, failed>>
      ELSE /\ ipc' = [ipc EXCEPT ![p][i] = "done"]
-          /\ resBag' = [resBag EXCEPT ![p] = @ \cup {[id |-> i, c |-> o]}]
-          /\ failed' = [failed EXCEPT ![p] = @ \cup {o}]
+          /\ resBag' = [resBag EXCEPT ![p] = @ \cup {[id |-> i, c |-> Cls(p, o)]}]
+          /\ failed' = [failed EXCEPT ![p] = IF NotCtxValue(Cls(p, o)) THEN @ \cup {Cls(p, o)} ELSE @]
           /\ UNCHANGED gun
   /\ UNCHANGED <<plan, engVars, poolVars, ctxVars, provVars, aggVars, stVars, itok, ishots, icls, closes, stok, awVars>>
 
@@ -403,7 +438,7 @@ InstCheck(p, i) ==
      ELSE IF Tok(p, i) = 0
           THEN ipc' = [ipc EXCEPT ![p][i] = "exit"] /\ SchedEndSeen(p) /\ UNCHANGED icls
           ELSE ipc' = [ipc EXCEPT ![p][i] = "acq"] /\ UNCHANGED <<startCancelled, icls>>
-  /\ UNCHANGED <<plan, engVars, poolVars, runCancelled, provVars, aggVars, stVars, facVars, itok, ishots, gun, closes, resBag, stok, awVars, failed>>
+  /\ UNCHANGED <<plan, engVars, poolVars, runCancelled, runClosed, startClosed, provVars, aggVars, stVars, facVars, itok, ishots, gun, closes, resBag, stok, awVars, failed>>
 
 \* return ctx.Err() after the loop
 InstExit(p, i) ==
@@ -430,7 +465,7 @@ InstWait(p, i) ==
                /\ IF PP(p).shared THEN stok' = [stok EXCEPT ![p] = @ - 1] /\ UNCHANGED itok
                   ELSE itok' = [itok EXCEPT ![p][i] = @ - 1] /\ UNCHANGED stok
                /\ UNCHANGED startCancelled
-  /\ UNCHANGED <<plan, engVars, poolVars, runCancelled, provVars, aggVars, stVars, facVars, ishots, icls, gun, closes, resBag, awVars, failed>>
+  /\ UNCHANGED <<plan, engVars, poolVars, runCancelled, runClosed, startClosed, provVars, aggVars, stVars, facVars, ishots, icls, gun, closes, resBag, awVars, failed>>
 
 \* gun.Shoot(ammo): may panic (plan); the deferred recover() turns it into an error
 Panics(p, i) == PP(p).panicInst = i /\ PP(p).panicShot = ishots[p][i] + 1
@@ -471,7 +506,8 @@ AwaitProvider(p) ==
                       ![p].pc = IF IsCtx(RunDone(p), provCh[p]) THEN "loop" ELSE "onerr",
                       ![p].pend = IF IsCtx(RunDone(p), provCh[p]) THEN "" ELSE provCh[p],
                       ![p].after = IF IsCtx(RunDone(p), provCh[p]) THEN "" ELSE "loop"]
-  /\ UNCHANGED <<plan, engVars, poolVars, ctxVars, provVars, aggVars, stVars, facVars, instVars, fwd, supp, failed>>
+  /\ failed' = [failed EXCEPT ![p] = IF IsCtx(RunDone(p), provCh[p]) THEN @ ELSE @ \cup {provCh[p]}]
+  /\ UNCHANGED <<plan, engVars, poolVars, ctxVars, provVars, aggVars, stVars, facVars, instVars, fwd, supp>>
 
 \* case err := <-ah.aggregatorErr
 AwaitAggregator(p) ==
@@ -480,7 +516,8 @@ AwaitAggregator(p) ==
                       ![p].pc = IF IsCtx(RunDone(p), aggCh[p]) THEN "loop" ELSE "onerr",
                       ![p].pend = IF IsCtx(RunDone(p), aggCh[p]) THEN "" ELSE aggCh[p],
                       ![p].after = IF IsCtx(RunDone(p), aggCh[p]) THEN "" ELSE "loop"]
-  /\ UNCHANGED <<plan, engVars, poolVars, ctxVars, provVars, aggVars, stVars, facVars, instVars, fwd, supp, failed>>
+  /\ failed' = [failed EXCEPT ![p] = IF IsCtx(RunDone(p), aggCh[p]) THEN @ ELSE @ \cup {aggCh[p]}]
+  /\ UNCHANGED <<plan, engVars, poolVars, ctxVars, provVars, aggVars, stVars, facVars, instVars, fwd, supp>>
 
 \* case res := <-ah.startRes
 AwaitStart(p) ==
@@ -489,26 +526,24 @@ AwaitStart(p) ==
                       ![p].pc = IF IsCtx(StartDone(p), startCh[p].c) THEN "check" ELSE "onerr",
                       ![p].pend = IF IsCtx(StartDone(p), startCh[p].c) THEN "" ELSE startCh[p].c,
                       ![p].after = IF IsCtx(StartDone(p), startCh[p].c) THEN "" ELSE "check"]
-  /\ UNCHANGED <<plan, engVars, poolVars, ctxVars, provVars, aggVars, stVars, facVars, instVars, fwd, supp, failed>>
+  /\ failed' = [failed EXCEPT ![p] = IF IsCtx(StartDone(p), startCh[p].c) THEN @ ELSE @ \cup {startCh[p].c}]
+  /\ UNCHANGED <<plan, engVars, poolVars, ctxVars, provVars, aggVars, stVars, facVars, instVars, fwd, supp>>
 
 \* case res := <-ah.runRes
 AwaitInstance(p, r) ==
   /\ AwLoop(p) /\ aw[p].resOpen /\ r \in resBag[p]
   /\ resBag' = [resBag EXCEPT ![p] = @ \ {r}]
   /\ IF r.c = "ooa"
-     THEN aw' = [aw EXCEPT ![p].awaited = @ + 1, ![p].pc = IF aw[p].startSeen THEN "check" ELSE "startcancel"]
-     ELSE aw' = [aw EXCEPT ![p].awaited = @ + 1,
+     THEN /\ aw' = [aw EXCEPT ![p].awaited = @ + 1, ![p].pc = "check"]
+          \* out of ammo before the start result: ah.instanceStartCancel() (takes effect through CtxProp)
+          /\ startCancelled' = [startCancelled EXCEPT ![p] = IF aw[p].startSeen THEN @ ELSE TRUE]
+     ELSE /\ UNCHANGED startCancelled
+          /\ aw' = [aw EXCEPT ![p].awaited = @ + 1,
                               ![p].pc = IF IsCtx(RunDone(p), r.c) THEN "check" ELSE "onerr",
                               ![p].pend = IF IsCtx(RunDone(p), r.c) THEN "" ELSE r.c,
                               ![p].after = IF IsCtx(RunDone(p), r.c) THEN "" ELSE "check"]
-  /\ UNCHANGED <<plan, engVars, poolVars, ctxVars, provVars, aggVars, stVars, facVars, ipc, itok, ishots, icls, gun, closes, stok, fwd, supp, failed>>
-
-\* out of ammo before the start result: ah.instanceStartCancel()
-StartCancelDo(p) ==
-  /\ aw[p].pc = "startcancel"
-  /\ startCancelled' = [startCancelled EXCEPT ![p] = TRUE]
-  /\ aw' = [aw EXCEPT ![p].pc = "check"]
-  /\ UNCHANGED <<plan, engVars, poolVars, runCancelled, provVars, aggVars, stVars, facVars, instVars, fwd, supp, failed>>
+  /\ failed' = [failed EXCEPT ![p] = IF r.c = "ooa" \/ IsCtx(RunDone(p), r.c) THEN @ ELSE @ \cup {r.c}]
+  /\ UNCHANGED <<plan, engVars, poolVars, runCancelled, runClosed, startClosed, provVars, aggVars, stVars, facVars, ipc, itok, ishots, icls, gun, closes, stok, fwd, supp>>
 
 \* onErrAwaited, case ah.awaitErr <- err: unbuffered, needs instancePool.Run parked in its final select
 \* (the two goroutines take this step together: Run receives the error and returns it)
@@ -536,22 +571,25 @@ AllAwaited(p) == aw[p].startSeen /\ aw[p].awaited >= aw[p].started
 CheckAllFin(p) ==
   /\ aw[p].pc = "check" /\ AllAwaited(p)
   /\ Assert(resBag[p] = {}, "Unexpected run result")
-  /\ aw' = [aw EXCEPT ![p].pc = "runcancel", ![p].resOpen = FALSE, ![p].toWait = @ - 1]
-  /\ UNCHANGED <<plan, engVars, poolVars, ctxVars, provVars, aggVars, stVars, facVars, instVars, fwd, supp, failed>>
-
-\* ah.runCancel(): signal to provider and aggregator that the pool run is finished
-RunCancelDo(p) ==
-  /\ aw[p].pc = "runcancel"
+  /\ aw' = [aw EXCEPT ![p].pc = "loop", ![p].resOpen = FALSE, ![p].toWait = @ - 1]
+  \* ah.runCancel(): signal to provider and aggregator that the pool run is finished (takes effect through CtxProp)
   /\ runCancelled' = [runCancelled EXCEPT ![p] = TRUE]
-  /\ aw' = [aw EXCEPT ![p].pc = "loop"]
-  /\ UNCHANGED <<plan, engVars, poolVars, startCancelled, provVars, aggVars, stVars, facVars, instVars, fwd, supp, failed>>
+  /\ UNCHANGED <<plan, engVars, poolVars, startCancelled, runClosed, startClosed, provVars, aggVars, stVars, facVars, instVars, fwd, supp, failed>>
+
+\* propagation of a cancellation to the run context and on to the instance start context
+CtxProp(p) ==
+  /\ \/ /\ ~runClosed[p] /\ (runCancelled[p] \/ PoolDone(p))
+        /\ runClosed' = [runClosed EXCEPT ![p] = TRUE] /\ UNCHANGED startClosed
+     \/ /\ ~startClosed[p] /\ (startCancelled[p] \/ runClosed[p])
+        /\ startClosed' = [startClosed EXCEPT ![p] = TRUE] /\ UNCHANGED runClosed
+  /\ UNCHANGED <<plan, engVars, poolVars, runCancelled, startCancelled, provVars, aggVars, stVars, facVars, instVars, awVars, failed>>
 
 CheckAllNot(p) ==
   /\ aw[p].pc = "check" /\ ~AllAwaited(p)
   /\ aw' = [aw EXCEPT ![p].pc = "loop"]
   /\ UNCHANGED <<plan, engVars, poolVars, ctxVars, provVars, aggVars, stVars, facVars, instVars, fwd, supp, failed>>
 
-CheckAll(p) == CheckAllFin(p) \/ CheckAllNot(p) \/ RunCancelDo(p) \/ StartCancelDo(p)
+CheckAll(p) == CheckAllFin(p) \/ CheckAllNot(p)
 
 \* loop left: close(awaitErr); onWaitDone()
 AwaitExit(p) ==
@@ -578,7 +616,7 @@ Done == Terminated /\ UNCHANGED vars          \* keeps TLC's deadlock check mean
 
 Next ==
   \/ EngStep \/ UserCancel \/ UserCancelDo \/ WaitReturn
-  \/ \E p \in Pools : PoolStep(p) \/ ProvStep(p) \/ AggStep(p) \/ StartStep(p) \/ AwaitStep(p)
+  \/ \E p \in Pools : CtxProp(p) \/ PoolStep(p) \/ ProvStep(p) \/ AggStep(p) \/ StartStep(p) \/ AwaitStep(p)
                       \/ \E i \in Insts : InstStep(p, i)
   \/ Done
 
@@ -590,7 +628,7 @@ Fairness ==
   /\ \A p \in UNION {1..Len(pl.pools) : pl \in Plans} :
        /\ WF_vars(p \in Pools /\ PoolStep(p)) /\ WF_vars(p \in Pools /\ ProvStep(p))
        /\ WF_vars(p \in Pools /\ AggStep(p)) /\ WF_vars(p \in Pools /\ StartStep(p))
-       /\ WF_vars(p \in Pools /\ AwaitStep(p))
+       /\ WF_vars(p \in Pools /\ AwaitStep(p)) /\ WF_vars(p \in Pools /\ CtxProp(p))
        /\ \A i \in Insts : WF_vars(p \in Pools /\ InstStep(p, i))
 FairSpec == Spec /\ Fairness
 \* only Engine.Run's own goroutine is scheduled: promptness of a cancelled Run must not depend on anyone else
